@@ -185,6 +185,12 @@ func (r *Run) Finish() {
 	r.mu.Lock()
 	defer r.mu.Unlock()
 	wall := time.Since(r.Start).Seconds()
+	if r.Assume == nil {
+		r.Assume = []string{"reference oracles written from the property statements and the book (harness/), Go toolchain"}
+	}
+	if r.Samples == nil {
+		r.Samples = []any{}
+	}
 	cov := map[string]any{
 		"evaluations":         r.Evals,
 		"distinct_nontrivial": r.nDistinct(),
